@@ -70,7 +70,9 @@ Needed(sc, n) == LET g == Grid(sc) IN
 \* ---- plans
 Leaves == IF Q THEN {"m", "moff", "mpin", "rate", "sotoff"} ELSE {"m", "moff", "mneg", "mpin", "mstart", "mend", "rate", "sotoff", "ratepin"}
 \* histq, ts, clamp: functions the engine builds on code paths of their own
-Wraps  == {"id", "abs", "sumby", "sumwo", "neg", "paren", "binl", "binr", "topk", "scal", "histq", "ts", "clamp"}
+\* selfnarrow: the plan minus a second selector of the same series over a narrower time range (same matchers, same
+\* enclosing function and grouping: the two selects must stay two selects)
+Wraps  == {"id", "abs", "sumby", "sumwo", "neg", "paren", "binl", "binr", "topk", "scal", "histq", "ts", "clamp", "selfnarrow"}
 LeafPlan(l) ==
   CASE l = "m"      -> <<Sel(<<Metric("m")>>)>>
     [] l = "moff"   -> <<SelOff(<<Metric("m")>>, 2)>>
@@ -94,6 +96,9 @@ Wrap(w, p) ==
     [] w = "histq" -> Join(<<NumS("0.9")>>, p, LAMBDA a, b : Fn("histogram_quantile", <<a, b>>))
     [] w = "ts"    -> Over(p, LAMBDA c : Fn("timestamp", <<c>>))
     [] w = "clamp" -> p \o <<Num(1), Num(9), Fn("clamp", <<Len(p), Len(p) + 1, Len(p) + 2>>)>>
+    [] w = "selfnarrow" -> LET leaf == p[1]
+                               narrow == IF leaf.op = "rfn" THEN [leaf EXCEPT !.rng = 1] ELSE [leaf EXCEPT !.atk = "lit", !.at = 8, !.off = 0]
+                           IN Join(p, <<narrow>>, LAMBDA a, b : BinM("-", a, b, FALSE, "1:1", FALSE, <<>>, <<>>))
     [] w = "scal"  -> Join(p, Over(<<Sel(<<Metric("p")>>)>>, LAMBDA c : Fn("scalar", <<c>>)), LAMBDA a, b : Fn("clamp_min", <<a, b>>))
 
 VARIABLE g
